@@ -92,7 +92,8 @@ func init() {
 		quickSweep, thoroughSweep, func(string) bx.PerHay {
 			return func(cx *bx.Ctx, h []byte, hi int) bool { return cx.OpsC03(h) }
 		})
-	q4 := quickSweep
+	// the enumeration / cross-view checks run ~10x more evaluations per (pattern, haystack): smaller haystack sets
+	q4 := bx.Tier{PN: 4, SK: 1, LASCII: 3, LBig: 2, LUTF8: 2, LUTF8Big: 2, LRaw: 2, LRawBig: 1, EmbedW: 1, EmbedPN: 2, TokL: 2, TokN: 5, SeedEmbW: 1, SeedJ: []int{0, 33}, SeedEmbFirst: 300, Budget: 150 * time.Second}
 	t4 := thoroughSweep
 	t4.PN = 4
 	t4.LASCII = 5
